@@ -32,7 +32,9 @@ seen = set()
 for l, r in zip(lines, recs):
     if r and r.get("fixed"):
         cands = byprop.get(r["property"], [])
-        if "commit" not in r and len(cands) == 1:
+        if "fix" in r:
+            pass                                   # names its own diff(s); the normalisation below resolves the commit
+        elif "commit" not in r and len(cands) == 1:
             r["commit"] = cands[0][1]["commit"]; r["fix"] = cands[0][0]
         elif "commit" not in r and cands:
             r["commits"] = [c[1]["commit"] for c in cands]; r["fix"] = [c[0] for c in cands]
@@ -46,3 +48,31 @@ for prop, cands in sorted(byprop.items()):
             out.append(json.dumps({"fixed": True, "property": prop, "commit": v["commit"], "fix": k, "what": v["subject"]}))
 open(f"{V}/known_findings.jsonl", "w").write("\n".join(out) + "\n")
 print(len(applied), "fix/hook diffs matched;", [os.path.basename(d) for d in glob.glob(f"{V}/fixes/*.diff") if os.path.basename(d) not in applied])
+
+# ---- normalise: every fixed line carries the commit hash(es) of its diff(s) and the textual form asked for by the interface
+import re
+applied = json.load(open(f"{V}/fixes/APPLIED.json"))
+out = []
+for l in open(f"{V}/known_findings.jsonl"):
+    l = l.rstrip("\n")
+    if not l.strip() or l.startswith("#"):
+        out.append(l); continue
+    r = json.loads(l)
+    if r.get("fixed"):
+        names = []
+        for f in ("fix", "commit"):
+            v = r.get(f)
+            for x in (v if isinstance(v, list) else [v]):
+                if isinstance(x, str):
+                    names += [os.path.basename(m) for m in re.findall(r"[\w./-]+\.diff", x)]
+        names = [n for i, n in enumerate(names) if n not in names[:i]]
+        hashes = [applied[n]["commit"] for n in names if n in applied]
+        if names:
+            r["fix"] = names[0] if len(names) == 1 else names
+        if hashes:
+            r.pop("commits", None)
+            r["commit"] = hashes[0] if len(hashes) == 1 else hashes
+        c = r.get("commit")
+        r["line"] = "fixed: property=%s %s %s" % (r["property"], ",".join(c) if isinstance(c, list) else c, (r.get("what") or "")[:160])
+    out.append(json.dumps(r))
+open(f"{V}/known_findings.jsonl", "w").write("\n".join(out) + "\n")
